@@ -144,13 +144,17 @@ JSON JSON::parse(StringReader& r, bool disable_extensions) {
         }
 
         if (e_negative) {
+          // The result is generally not an integer, so it is returned as a float
+          is_int = false;
           for (; e > 0; e--) {
-            int_data *= 0.1;
             float_data *= 0.1;
           }
         } else {
           for (; e > 0; e--) {
-            int_data *= 10;
+            // If the result doesn't fit in an integer, it is returned as a float
+            if (is_int && __builtin_mul_overflow(int_data, 10, &int_data)) {
+              is_int = false;
+            }
             float_data *= 10;
           }
         }
